@@ -19,6 +19,7 @@ func init() {
 			ruleR0(c, r, "", c.Func("lzma", "decoder.Read"), nil)
 			ruleR0(c, r, "", c.Func("lzma", "Reader.Read"), nil)
 			ruleNoProgress(c, r, "")
+			ruleMultiStream(c, r, "")
 			ruleCounting(c, r, "", "read")
 			ruleDecoderReadErr(c, r, "")
 			ruleReadInvokes(c, r, "")
